@@ -67,7 +67,8 @@ Record pcore := mkCore {
   n_csetup : N; n_ssetup : N;    (* SetupRemoteDevice calls per side, saturating at 2 *)
   c_complete : bool; s_complete : bool;   (* Complete was reported *)
   c_idrep : bool; s_idrep : bool;         (* the peer's SHIP id was reported *)
-  s_peer_ready : bool                     (* the server has received the client's hello "ready" while pending *)
+  s_peer_ready : bool;                    (* the server has received the client's hello "ready" while pending *)
+  cancelled : bool                        (* the user cancelled while the server's hello phase was waiting *)
 }.
 Record pair := mkPair { core : pcore; q_cs : list wire; q_sc : list wire }.
 
@@ -113,7 +114,7 @@ Definition client_ev (cfg : pcfg) (p : pair) (e : cev) : pair :=
   mkPair (mkCore c' (e_s k) (u_done k) (u_trusted k)
                  (sat2 (n_csetup k + count_of is_setup l)) (n_ssetup k)
                  (c_complete k || has is_complete_report l) (s_complete k)
-                 (c_idrep k || has is_shipid l) (s_idrep k) (s_peer_ready k))
+                 (c_idrep k || has is_shipid l) (s_idrep k) (s_peer_ready k) (cancelled k))
          (q_cs p ++ outgoing (p_wclosed (e_c k) || is_connerr e) l) (q_sc p).
 
 (* the server processes e; trusted / done are the hub's trusted flag and the user-acted flag
@@ -126,7 +127,8 @@ Definition server_ev (cfg : pcfg) (p : pair) (trusted done : bool) (e : cev) : p
                  (c_complete k) (s_complete k || has is_complete_report l)
                  (c_idrep k) (s_idrep k || has is_shipid l)
                  (s_peer_ready k || (N.eqb (p_st (e_s k)) 11 &&
-                    match e with CRecv NotDatagram NoClose (MHello (Hello HReady _ _)) => true | _ => false end)))
+                    match e with CRecv NotDatagram NoClose (MHello (Hello HReady _ _)) => true | _ => false end))
+                 (cancelled k || (match e with CAbort => N.eqb (p_st (e_s k)) 8 || N.eqb (p_st (e_s k)) 11 | _ => false end)))
          (q_cs p) (q_sc p ++ outgoing (p_wclosed (e_s k) || is_connerr e) l).
 
 (* strict = the user only approves once the server has seen the client's hello "ready"
@@ -168,7 +170,7 @@ Definition pstep2 (strict : bool) (cfg : pcfg) (p : pair) (lb : label) : option 
         let p' := server_ev cfg p false true CAbort in
         let k' := core p' in
         Some (mkPair (mkCore (e_c k') (e_s k') true false (n_csetup k') (n_ssetup k')
-                             (c_complete k') (s_complete k') (c_idrep k') (s_idrep k') (s_peer_ready k'))
+                             (c_complete k') (s_complete k') (c_idrep k') (s_idrep k') (s_peer_ready k') (cancelled k'))
                      (q_cs p') (q_sc p'))
       else None
   | LTimeoutC => if p_armed (e_c k) then Some (client_ev cfg p CTimeout) else None
@@ -200,7 +202,7 @@ Definition idk_of (x : idcfg) : bool := match x with IdUnknown => false | _ => t
 Definition pair_init (cfg : pcfg) : pair :=
   let '(c0, lc) := estep cfg true (of_cs (init_cs Client (idk_of (f_cid cfg)))) CRun in
   let '(s0, ls) := estep cfg false (of_cs (init_cs Server (idk_of (f_sid cfg)))) CRun in
-  mkPair (mkCore c0 s0 false false 0 0 false false false false false) (sent_of lc) (sent_of ls).
+  mkPair (mkCore c0 s0 false false 0 0 false false false false false false) (sent_of lc) (sent_of ls).
 
 (* ---- verified equality and hash for the closure ---- *)
 Scheme Equality for wire.
@@ -228,8 +230,8 @@ Definition pcs_code (c : pcs) : N :=
 Definition pair_hash (p : pair) : positive :=
   let k := core p in
   N.succ_pos (pcs_code (e_c k) + 32768 * (pcs_code (e_s k) + 32768 *
-     (bN (u_done k) + 2 * (bN (u_trusted k) + 2 * (bN (s_peer_ready k) + 2 * (n_csetup k + 4 * (n_ssetup k + 4 *
-     (queue_code (q_cs p) mod 1048576 + 1048576 * (queue_code (q_sc p) mod 1048576))))))))).
+     (bN (u_done k) + 2 * (bN (u_trusted k) + 2 * (bN (s_peer_ready k) + 2 * (bN (cancelled k) + 2 * (n_csetup k + 4 * (n_ssetup k + 4 *
+     (queue_code (q_cs p) mod 1048576 + 1048576 * (queue_code (q_sc p) mod 1048576)))))))))).
 
 (* ---- what the harness observes of a pair after every label ---- *)
 Record psum := mkSum {
